@@ -987,10 +987,18 @@ class _InternalBaseTracer(_InternalBaseTracerSuper, metaclass=MetaTracerStateMac
                 TraceEvent.opcode in self.events_with_registered_handlers
             )
             try:
-                return self._emit_event(evt, None, frame, ret=arg)
+                ret = self._emit_event(evt, None, frame, ret=arg)
             finally:
                 frame.f_trace_lines = orig_trace_lines  # type: ignore
                 frame.f_trace_opcodes = orig_trace_opcodes  # type: ignore
+            if (
+                ret is None
+                and TraceEvent.call not in self.events_with_registered_handlers
+            ):
+                # no 'call' handler could have asked to skip this frame: keep tracing it,
+                # otherwise its line / return / exception events are never delivered
+                ret = self.sys_tracer
+            return ret
         else:
             return self._emit_event(evt, None, frame, ret=arg)
 
